@@ -68,6 +68,7 @@ func runC06(c *Ctx) {
 		"called through that variant the operation ignores an argument (patterns, limits, a flag) or uses one argument for two — the values returned and the resulting tree are not those of the operation the caller asked for")
 	// Z24: who may call the bare copy workers
 	c.c06WorkersOnlyBehindTheGuards()
+	c.c06IntoRuleAppliedOnce()
 	c.c06CancellationIsReported()
 	if os.Getenv("GUCHECK_EXPLORE") == "forwarders" {
 		c.exploreForwarders()
@@ -1985,6 +1986,61 @@ func (c *Ctx) c06CancellationIsReported() {
 			c.FuncsSeen[fname(outermost(f))] = true
 			c.check(bad == "", "Z25", key, c.ipos(g), "every return beyond the failing side of the gate hands the context error back",
 				"from the side where the context was found ended the function can reach the return at "+bad+", which reports something else — success, typically, after a `break` out of the loop: a listing or a walk cancelled half-way returns a partial result and no error")
+		})
+	}
+}
+
+// c06IntoRuleAppliedOnce (Z26): "the resulting tree is that of the reference model" — a copy onto an existing directory goes
+// *into* it (cp -r): CopyBetweenFSWithExclusionRegexes resolves an existing directory destination to Join(dest, Base(src))
+// itself. A caller inside the package that copies the children of a folder hands it the folder's destination, not that
+// destination already joined with the child's name: the name would be appended twice whenever the child's directory
+// exists at the destination (a second copy over a first one lands in dest/child/child and leaves dest/child stale).
+func (c *Ctx) c06IntoRuleAppliedOnce() {
+	c.rule("Z26", "inside package filesystem the destination handed to the guarded copy (which appends the source's base name to an existing directory itself) is not already joined with the name the source was joined with: the 'into' rule is applied once", 1)
+	guarded := c.fnOpt(fsPkgRel, "CopyBetweenFSWithExclusionRegexes")
+	if guarded == nil || len(guarded.Params) < 5 {
+		return
+	}
+	si, di := paramIndexByName(guarded, "src"), paramIndexByName(guarded, "dest")
+	if si < 0 || di < 0 {
+		c.undecided("Z26", fsPkgRel+"/guarded-copy-parameters", c.pos(guarded.Pos()), "the guarded copy no longer has parameters named src and dest")
+		return
+	}
+	n := 0
+	for _, f := range c.srcFuncs(fsPkgRel) {
+		if f.Blocks == nil || f == guarded {
+			continue
+		}
+		allInstrs(f, func(in ssa.Instruction) {
+			cl, ok := in.(*ssa.Call)
+			if !ok || staticCallee(&cl.Call) != guarded || !inLoop(cl) {
+				return
+			}
+			// the names joined onto the source and onto the destination
+			joined := func(v ssa.Value) map[ssa.Value]bool {
+				out := map[ssa.Value]bool{}
+				for _, l := range sources(v, deriveOpts{through: func(g string) bool { return strings.HasSuffix(g, "filepath.Join") }}) {
+					if _, isParam := resolveValue(l).(*ssa.Parameter); !isParam {
+						out[resolveValue(l)] = true
+					}
+				}
+				return out
+			}
+			sj, dj := joined(cl.Call.Args[si]), joined(cl.Call.Args[di])
+			twice := false
+			for v := range sj {
+				if dj[v] {
+					twice = true
+				}
+			}
+			key := fname(outermost(f)) + "/child-copied-into-the-folders-destination"
+			if n > 0 {
+				key += "#" + strconv.Itoa(n)
+			}
+			n++
+			c.FuncsSeen[fname(outermost(f))] = true
+			c.check(!twice, "Z26", key, c.ipos(cl), "the child is copied into the folder's own destination",
+				"the child is handed to the guarded copy with a destination that already ends with the child's name: the guarded copy appends the base name of its source to a destination that is an existing directory (the cp -r 'into' rule), so wherever dest/child exists as a directory — a second copy of a tree over the first — the content lands in dest/child/child and dest/child keeps its stale files; the resulting tree is not that of the reference model")
 		})
 	}
 }
